@@ -198,6 +198,10 @@ func processFile(filePath string, ctxt *processors.Context, checkOnly bool) erro
 		lines = append([]string{regexAssemblyStandardHeader}, lines...)
 	}
 	lines = formatEndOfFile(lines)
+	if len(lines) == 3 && checkStandardHeader(lines) {
+		// the file has no body: keep the empty line that belongs to the header
+		lines = append(lines, "")
+	}
 
 	newContents := []byte(strings.Join(lines, "\n"))
 	if checkOnly {
